@@ -145,7 +145,16 @@ pub fn run(tier: &str, seed: u64, dir: &str) {
             sink.case(&line, &eval(&line), "uplink-echo", line.contains("; *"));
         }
     }
+    // builder Y — downlinks addressed to another DevAddr under the session's own keys at the next fresh counter in
+    // RX1 / RX2 / RXC: addressed to someone else, whatever their MIC (starred unless oversized)
+    for region in REGIONS {
+        for k in 0..(if thorough { 144 } else { 24 }) {
+            let op = other_devaddr_history("C07", &mut rng, region, k);
+            let line = star_by_reference(&op);
+            sink.case(&line, &eval(&line), "other-devaddr", line.contains("; *"));
+        }
+    }
     // device level: both front-ends with the scripted radio (see adevgen::add_dev_classes)
     crate::adevgen::add_dev_classes("C07", &mut rng, &mut sink, thorough, eval);
-    sink.finish(dir, "twin runs: each history is executed twice on the real Mac, once with and once without the frames marked `*` (frames the REFERENCE view rejects: unparseable bytes, data frames whose MIC verifies under no counter incl. bit-flips and other-session frames, wrong-key JoinAccepts; oversized ones are left unstarred); every unstarred event must produce identical output (uplink bytes as decoded, TxConfig, windows, responses, snapshots) and every starred one `NoUpdate`. Non-trivial = histories containing at least one starred frame.", false, serde_json::json!({}));
+    sink.finish(dir, "twin runs: each history is executed twice on the real Mac, once with and once without the frames marked `*` (frames the REFERENCE view rejects: unparseable bytes, data frames whose MIC verifies under no counter incl. bit-flips and other-session frames, downlinks addressed to another DevAddr whatever their MIC (also under the session's own keys at a fresh counter: classes other-devaddr, rej-other-devaddr), wrong-key JoinAccepts; oversized ones are left unstarred); every unstarred event must produce identical output (uplink bytes as decoded, TxConfig, windows, responses, snapshots) and every starred one `NoUpdate`. Non-trivial = histories containing at least one starred frame.", false, serde_json::json!({}));
 }
